@@ -18,7 +18,7 @@ THEOREMS = ['C02_gen_complete', 'C02_shift_down', 'C02_shift_up',
             'C02_radius_scaling', 'C02_dlon_commutes',
             'C02_div_kcross', 'C02_curl_kcross', 'C02_curl_grad_spectral', 'C02_div_grad_spectral',
             'C02_vecid_sec2', 'C02_grad_top_clipped',
-            'C02_hyps_satisfiable', 'C02_cos2_hyps_satisfiable_R']
+            'C02_hyps_satisfiable', 'C02_cos2_hyps_satisfiable_R', 'C02_legendre_derivative_relation_partial']
 LEVEL = 'proof'
 LEVEL_TEXT = ('machine-checked theorems (Coq) for every field, every truncation (M, L), every padding and every radius r <> 0 '
               'about the Gallina model of shift / d_dlon / cos_lat_d_dlat / sec_lat_d_dlat_cos2 / laplacian / inverse_laplacian / '
